@@ -131,6 +131,31 @@ theorem reach_line_pending (o : Opts) (cs1 cs2 : List Chunk) (w : List WsAtom) (
   have := reach_line o cs1 cs2 w line col lt hok hfit h2
   exact ⟨this.1, this.2.1⟩
 
+/-- **the line of a report made with a pending token, in terms of the characters**: whole text `cs₀ ++ [t'] ++ cs₂`, the parser has
+    walked over the tokens of `cs₀` and has just scanned `t'` (not consumed): the scanner's line is the line at the END of `t'`,
+    `posAfter 1 0` over the characters up to and including `t'` -/
+theorem line_pending (o : Opts) (cs0 cs2 : List Chunk) (t' : Tk)
+    (hok : okC o.dia .end_ [] (cs0 ++ [.tk t'] ++ cs2)) (hfit : linesFit 0 (renderChunks (cs0 ++ [.tk t'] ++ cs2)) = true)
+    {s0 s1 : PS} {t : Tok}
+    (h : Reach o { scan := Scan.init (renderChunks (cs0 ++ [.tk t'] ++ cs2)), tok := none } (toks cs0).length s0)
+    (hn : ∀ pol w, nextTok o s0 pol w = .ok (t, s1) w) (ht : s1.tok = some t) :
+    s1.scan.line = (posAfter 1 0 (renderChunks (cs0 ++ [.tk t']))).1 := by
+  have := reach_line_pending o (cs0 ++ [.tk t']) cs2 [] 1 0 .end_ hok (by simpa [renderWs] using hfit)
+    (k := (toks cs0).length) (by simp [toks_append, toks]) (by simpa [renderWs, Scan.init] using h) hn ht
+  rw [this.1, posTok_snoc]
+  simp [renderWs]
+
+/-- … and of a report made right after CONSUME_TOKEN of `t'` -/
+theorem line_consumed (o : Opts) (cs0 cs2 : List Chunk) (t' : Tk)
+    (hok : okC o.dia .end_ [] (cs0 ++ [.tk t'] ++ cs2)) (hfit : linesFit 0 (renderChunks (cs0 ++ [.tk t'] ++ cs2)) = true)
+    {s1 : PS}
+    (h : Reach o { scan := Scan.init (renderChunks (cs0 ++ [.tk t'] ++ cs2)), tok := none } ((toks cs0).length + 1) s1) :
+    s1.scan.line = (posAfter 1 0 (renderChunks (cs0 ++ [.tk t']))).1 := by
+  have := reach_line o (cs0 ++ [.tk t']) cs2 [] 1 0 .end_ hok (by simpa [renderWs] using hfit)
+    (by simpa [renderWs, Scan.init, toks_append, toks] using h)
+  rw [this.1, posTok_snoc]
+  simp [renderWs]
+
 /-! ### characters, tokens and fuel
 
   Every accepted token has at least one character, a block header at least six: the fuel `parse` passes (`fuelFor`: twice the
